@@ -7,11 +7,11 @@ from . import small as SM
 
 CONFIG = {
     'C01': dict(streams=[('td_class', 480), ('td_wf', 880), ('td_coarse', 320), ('fail_wf', 200), ('panic', 240)], keep='om'),
-    'C02': dict(streams=[('td_exact', 880), ('td_wf', 480)], keep='ov'),
-    'C03': dict(streams=[('bu_class', 320), ('bu_wf', 720), ('mixed_wf', 320), ('newreq', 160), ('fail_bu', 200), ('mid_session', 160)], keep='ovm'),
-    'C04': dict(streams=[('bu_class', 320), ('bu_wf', 960), ('mixed_wf', 160), ('newreq', 160), ('abort_bu', 240)], keep='ov'),
-    'C05': dict(streams=[('inj_hidden', 1200), ('siblings', 240), ('td_wf', 160), ('same_session', 80)], keep='om'),
-    'C06': dict(streams=[('inj_overlap', 1200), ('td_wf', 160), ('same_session', 80), ('newreq', 160)], keep='om'),
+    'C02': dict(streams=[('td_exact', 880), ('td_wf', 480), ('td_mid', 160)], keep='ov'),
+    'C03': dict(streams=[('bu_class', 320), ('bu_wf', 720), ('mixed_wf', 320), ('newreq', 160), ('cutoff_newreq', 160), ('fail_bu', 200), ('mid_session', 160)], keep='ovm'),
+    'C04': dict(streams=[('bu_class', 320), ('bu_wf', 960), ('mixed_wf', 160), ('newreq', 160), ('cutoff_newreq', 240), ('abort_bu', 240)], keep='ov'),
+    'C05': dict(streams=[('inj_hidden', 1200), ('siblings', 240), ('td_wf', 160), ('same_session', 80)], keep='om', extra='wabort'),
+    'C06': dict(streams=[('inj_overlap', 1200), ('td_wf', 160), ('same_session', 80), ('newreq', 160)], keep='om', extra='wabort'),
     'C07': dict(streams=[('inj_cycle', 880), ('reorder_cycle', 240), ('cycle_query', 240), ('newreq', 160)], keep='ov'),
     'C08': dict(streams=[('td_wf', 560), ('bu_wf', 320), ('multi', 80), ('panic', 240), ('abort_bu', 120), ('newreq', 160), ('same_abort', 80), ('fail_wf', 160)], keep='od'),
     'C09': dict(streams=[('td_coarse', 880), ('bu_wf', 320), ('multi', 80)], keep='dv', extra='stampsrc'),
@@ -37,6 +37,9 @@ def make_case(rng, stream, big=False):
     if stream == 'newreq':
         p, steps, meta = P.gen_newreq_program(rng)
         return p, steps, norm_meta(meta, 'mixed')
+    if stream == 'cutoff_newreq':
+        p, steps, meta = P.gen_cutoff_newreq_program(rng)
+        return p, steps, norm_meta(meta, 'bu')
     if stream == 'abort_bu':
         p, steps, meta = P.gen_abort_bu_program(rng)
         return p, steps, norm_meta(meta, 'mixed')
@@ -53,6 +56,10 @@ def make_case(rng, stream, big=False):
     if stream == 'same_abort':
         p, steps, meta = P.gen_same_abort_program(rng)
         m = norm_meta({}, 'td'); m['impl_only'] = True
+        return p, steps, m
+    if stream == 'td_mid':
+        p, steps, meta = P.gen_td_mid_program(rng)
+        m = norm_meta({}, 'td'); m['impl_only'] = True; m['only_sigs'] = ('executed-twice',)
         return p, steps, m
     if stream == 'mid_session':
         p, steps, meta = P.gen_mid_session_program(rng)
@@ -134,6 +141,8 @@ def run_cases(exe_impl, exe_model, cases, work, fresh=True, tag='', noise=False)
         # split by case
         ic = split_all(o1)
         mc = split_all(o2) if o2 is not None else None
+        if rc1 != 0 and ic:
+            ic = ic[:-1]          # the process died inside its last case (output is flushed at every case start): that case is the crash
         for j in range(len(cs)):
             gi = k + j * shard
             impl[gi] = ic[j] if j < len(ic) else None
@@ -204,7 +213,7 @@ def run(prop, tier, seed, replay=None):
     work = os.path.join(C.CACHE, 'run', '%s-%s-%d' % (prop, tier, os.getpid()))
     os.makedirs(work, exist_ok=True)
     toks_list = [c[3] for c in cases]
-    if replay and cases[0][4] == 'tracker_probe':
+    if replay and cases[0][4].endswith('_probe'):
         toks_list = []
     impl, model, crashes = run_cases(exe_impl, exe_model, toks_list, work)
     impl2 = None
@@ -216,7 +225,7 @@ def run(prop, tier, seed, replay=None):
     dist = {'sessions': 0, 'executions': 0, 'aborts': {}, 'reused_sessions': 0, 'bottom_up_builds': 0, 'checker_errors': 0, 'streams': {}}
     nontrivial = set()
     for i, (prog, steps, meta, toks, stream) in enumerate(cases):
-        if stream == 'tracker_probe':
+        if stream.endswith('_probe'):
             continue
         if impl[i] is None:
             findings.append(('crash', 'the implementation harness crashed or did not terminate on this case (stack overflow / abort)', i))
@@ -243,6 +252,8 @@ def run(prop, tier, seed, replay=None):
         if nx >= 2 and len(sessions) >= 2:
             nontrivial.add(' '.join(toks))
         fs = O.run_oracles(prog, meta, sessions)
+        if meta.get('only_sigs'):
+            fs = [f for f in fs if f[1] in meta['only_sigs']]
         for (pr, sig, msg) in fs:
             pr2, sig2 = remap(prog, pr, sig)
             if mine(prop, pr2, sig2):
@@ -274,6 +285,24 @@ def run(prop, tier, seed, replay=None):
                 what = {'0': 'read', '1': 'write', '2': 'create_writer + written_to'}[kv['mode']]
                 findings.append(('stamp-source', 'stamp-source probe (%s context, %s%s): the task used open #%s of the resource, the recorded stamp is %s (expected %s) and the resource was opened %s time(s) (expected 1): the stamp was not taken from the very reader/writer handed to the task' % (kv['ctx'], what, ', nested' if kv['nested'] == '1' else '', seen0, kv['stamps'], exp, kv['opens']), base))
                 break
+    if cfg.get('extra') == 'wabort' and (not replay or cases[0][4] == 'wabort_probe'):
+        # opening a resource for writing may itself modify it (a file is created / truncated): a rejected write through the
+        # context must be rejected before Resource::write is called
+        exe_probe, pout = C.build_harness('misc_probe')
+        rc1, o1, _ = C.sh([exe_probe, 'wabort'], timeout=600) if exe_probe else (1, '', 0)
+        kind = 'hidden' if prop == 'C05' else 'overlap'
+        lines = [l for l in o1.split('\n') if l.startswith('wabort kind=%s ' % kind)]
+        base = len(cases) if not replay else 0
+        if not replay: cases.append((None, None, {}, ['wabort'], 'wabort_probe'))
+        if rc1 != 0 or len(lines) != 4:
+            findings.append(('crash', 'the write-abort probe crashed or printed %d of 4 lines' % len(lines), base))
+        for l in lines:
+            kv = dict(x.split('=', 1) for x in l.split()[1:])
+            where = 'write-abort probe (%s, second build in the %s session%s)' % (kind, kv['session'], ', writer required by another task' if kv['nested'] == '1' else '')
+            if kv['aborted'] != '1' or not kv['msg'].startswith('Hidden' if kind == 'hidden' else 'Overlapping'):
+                findings.append(('not-detected', '%s: the build did not abort with the %s diagnosis (aborted=%s %s)' % (where, kind, kv['aborted'], kv['msg']), base)); break
+            if kv['opens_after'] != kv['opens_before']:
+                findings.append(('modified-before-abort', '%s: the resource was opened for writing (%s -> %s opens; a file would have been created or truncated) although the write was rejected' % (where, kv['opens_before'], kv['opens_after']), base)); break
     if cfg.get('extra') == 'tracker' and (not replay or cases[0][4] == 'tracker_probe'):
         tcases = [c[3] for c in cases] if replay else [SM.ALL_KINDS_CASE] + [SM.gen_tracker_case(rng) for _ in range(600 if tier == 'quick' else 20000)]
         exe_probe, pout = C.build_harness('misc_probe')
@@ -403,7 +432,8 @@ def replay_payload(prop, kind, seed, prog, meta, toks, stream, extra):
                           'generated': {str(k): list(v) for k, v in prog.generated.items()}, 'sources': prog.sources}
     if meta is not None:
         d['meta'] = {'mode': meta.get('mode'), 'repeat_steps': sorted(meta.get('repeat_steps', ())),
-                     'probe_steps': {str(k): v for k, v in meta.get('probe_steps', {}).items()}}
+                     'probe_steps': {str(k): v for k, v in meta.get('probe_steps', {}).items()},
+                     'bu_steps': sorted(meta.get('bu_steps', ())), 'impl_only': bool(meta.get('impl_only')), 'only_sigs': list(meta.get('only_sigs', ()))}
     d.update(extra)
     return d
 
@@ -419,7 +449,11 @@ def restore_prog(data):
 
 def restore_meta(data):
     m = data.get('meta', {})
-    return {'mode': m.get('mode'), 'repeat_steps': set(m.get('repeat_steps', ())), 'probe_steps': {int(k): v for k, v in m.get('probe_steps', {}).items()}}
+    r = {'mode': m.get('mode'), 'repeat_steps': set(m.get('repeat_steps', ())), 'probe_steps': {int(k): v for k, v in m.get('probe_steps', {}).items()},
+         'bu_steps': set(m.get('bu_steps', ()))}
+    if m.get('impl_only'): r['impl_only'] = True
+    if m.get('only_sigs'): r['only_sigs'] = tuple(m['only_sigs'])
+    return r
 
 
 def shrink_case(exe_impl, prog, steps, meta, prop, sig, msg):
@@ -531,4 +565,11 @@ def corpus(prop):
         p = P.Prog(); p.tasks = {2: ('Q', 1, 0, ('D',)), 1: ('R', 1, 0, ('D',))}; p.sources = [1]
         out.append((p, [['E', '1', '1'], ['S', '1', 'q', '2'], ['E', '1', '2'], ['S', '1', 'q', '1'], ['S', '1', 'b', '1', '1'], ['S', '2', 'q', '1', 'q', '2']],
                     {'mode': 'mixed', 'repeat_steps': set(), 'probe_steps': {5: 4}, 'bu_steps': {4}}, 'corpus'))
+    if prop in ('C03',):
+        # same-session diamond (seed C03_r14): Read(0) reads r50, Lower(1) requires Read, Top(2) reads marker r51 and then requires
+        # Read and Lower; one session requires Read, then r50 and the marker change and are reported to a bottom-up build
+        p = P.Prog(); p.sources = [50, 51]
+        p.tasks = {0: ('R', 50, 0, ('T', ('a',))), 1: ('Q', 0, 0, ('T', ('a',))), 2: ('R', 51, 0, ('I', ('l', 0), ('T', ('a',)), ('Q', 0, 0, ('Q', 1, 0, ('T', ('a',))))))}
+        m = {'mode': 'bu', 'repeat_steps': set(), 'probe_steps': {3: 2}, 'bu_steps': {2}, 'impl_only': True}
+        out.append((p, [['E', '50', '1'], ['S', '2', 'q', '1', 'q', '2'], ['S', '4', 'q', '0', 'e', '50', '2', 'e', '51', '1', 'b', '2', '50', '51'], ['S', '3', 'q', '0', 'q', '1', 'q', '2']], m, 'corpus'))
     return out
